@@ -2663,6 +2663,10 @@ func (p *Parser) evaluateSubscript(ctx context) (Expression, error) {
 	}
 
 	if !isSlice {
+		// A single character subscript has no separate end-index.
+		if !gotRange {
+			endIndex = nil
+		}
 		return StringSubscript{
 			value:      value,
 			startIndex: startIndex,
